@@ -391,6 +391,33 @@ fn nesting_family() -> Vec<(Via, String)> {
     out
 }
 
+/// valid documents that stress the generators where several features meet (same fragment reached twice
+/// under different conditions, merged same-key selections, nested conditions, many variables)
+const CORNERS: [&str; 22] = [
+    "query Q($a: Boolean!, $b: Boolean!) { me { ...F @include(if: $a) ...F @skip(if: $b) } } fragment F on User { name }",
+    "query Q($a: Boolean!, $b: Boolean!) { me { ...G ...H } } fragment G on User { ...F @include(if: $a) } fragment H on User { ...F @skip(if: $b) } fragment F on User { name }",
+    "query Q($a: Boolean!, $b: Boolean!) { me { ... on User @skip(if: $a) { id } ... on User @include(if: $b) { id } ... @skip(if: $b) { name } } }",
+    "query Q($a: Boolean!) { me { id @skip(if: $a) id @include(if: $a) } }",
+    "query Q($a: Boolean!, $b: Boolean!) { me { friends { id @skip(if: $a) } friends { name @include(if: $b) } } }",
+    "query Q($a: Boolean!, $b: Boolean!) { me { friends { id @skip(if: $a) } ...F } } fragment F on User { friends { name @include(if: $b) ...F2 } } fragment F2 on User { id @skip(if: $a) @include(if: $b) }",
+    "query Q { node(id: \"1\") { ... on User { ... on Named { ... on Node { id } } } } }",
+    "query Q { search(text: \"x\") { ... on Node { id } ... on Named { name } __typename } }",
+    "query Q($a: Boolean!) { me @skip(if: $a) { id } me @include(if: $a) { name } }",
+    "query Q { me { __typename: id t: __typename } }",
+    "query Q { me { a: id a: id b: name } }",
+    "query Q($a: Boolean! = true, $b: Boolean = false) { me { ... @include(if: $a) { ... @skip(if: $b) { id } } } }",
+    "query Q($a: Boolean!) { me { ...F } } fragment F on User { ...G @skip(if: $a) } fragment G on User { ...H @include(if: $a) } fragment H on User { id }",
+    "subscription S($a: Boolean!) { tick @skip(if: $a) }",
+    "query Q { users(filter: {nested: {nested: {kind: ADMIN}}}, first: 1) { posts { author { posts { title } } } } }",
+    "query Q($a: Boolean!) { search(text: \"\") { ... on User @include(if: $a) { id } ... on User @skip(if: $a) { name } ... on Post { id } } }",
+    "fragment A on SearchResult { ... on User { id } ...B } fragment B on SearchResult { ... on Post { id } ...C @skip(if: true) } fragment C on SearchResult { __typename }",
+    "query Q($a: Boolean!, $b: Boolean!, $c: Boolean!, $d: Boolean!, $e: Boolean!) { me { id @skip(if: $a) name @skip(if: $b) age @skip(if: $c) kind @skip(if: $d) born @skip(if: $e) } }",
+    "query Q($a: Boolean!, $b: Boolean!) { me { ...F @skip(if: $a) @include(if: $b) ...F } } fragment F on User { id posts { ...P @include(if: $a) } } fragment P on Post { title author { ...F } }",
+    "query Q($a: Boolean!) { node(id: \"1\") { ...N @skip(if: $a) ... on User { ...N @include(if: $a) } } } fragment N on Node { id ... on Post { title } }",
+    "mutation M($a: Boolean!) { rename(id: \"1\", name: \"x\") @skip(if: $a) { id } r2: rename(id: \"1\", name: \"x\") @include(if: $a) { name } }",
+    "query Q($a: Boolean!, $b: Boolean!) { me { posts { author { ...F @skip(if: $a) } } posts { author { ...F @include(if: $b) } } } } fragment F on User { id }",
+];
+
 const HAZARDS: [&str; 29] = [
     // descriptions whose lines are indented with different kinds of white space (printed as JSDoc)
     "\"\"\"\n    four spaces\n\u{3000}\u{3000}two ideographic spaces\n\"\"\" type Query { a: Int }",
@@ -625,6 +652,14 @@ pub fn run(args: &Args) -> i32 {
             Err(e) => crate::report::machinery(&format!("cannot spawn nesting child: {e}")),
         }
         family_counts.insert("nesting".into(), json!({"max_depth": 64, "cases": ctx.evals.load(Ordering::Relaxed) - before}));
+
+        // (e) corner documents: valid documents where several generator features meet
+        let before = ctx.evals.load(Ordering::Relaxed);
+        for t in CORNERS {
+            ctx.run(Via::Op, "corners", t);
+            ctx.run(Via::Loader, "corners", t);
+        }
+        family_counts.insert("corner_documents".into(), json!({"cases": ctx.evals.load(Ordering::Relaxed) - before}));
 
         // (d) Unicode / truncation hazards
         let before = ctx.evals.load(Ordering::Relaxed);
